@@ -62,8 +62,8 @@ def plan(tier):
         ("nsetbytes", "same", None, [hx(1), hx(patA), hx(int("ff" * 3 + "00" * 29, 16)), hx(int("fffffffe" + "ff" * 12 + "00" * 16, 16)),
                                      hx(nm1 - 1)], 8000),
         ("psetbytes", "same", None, [hx(1), hx(patA), hx(int("ff" * 3 + "00" * 29, 16)), hx(P - 2)], 8000),
-        ("pinvert", "same", None, [hx(1), hx(2), hx(patA), hx(P - 1)] if not q else [hx(2), hx(patA), hx(P - 1)], 0),
-        ("ninvert", "same", None, [hx(1), hx(2), hx(patB), hx(nm1)] if not q else [hx(2), hx(patB), hx(nm1)], 0),
+        ("pinvert", "same", None, [hx(1), hx(2), hx(patA), hx(P - 1), hx(0)] if not q else [hx(2), hx(patA), hx(P - 1), hx(0)], 0),
+        ("ninvert", "same", None, [hx(1), hx(2), hx(patB), hx(nm1), hx(0)] if not q else [hx(2), hx(patB), hx(nm1), hx(0)], 0),
         ("basemult", "same", None, [hx(v) for v in (scal if not q else scal[:3] + [0])], 0),
     ]
     # the signing entry point with a fixed digest and nonce and different private keys, among them keys
@@ -75,7 +75,7 @@ def plan(tier):
         jobs.append(("mult", "same", None, [hx(v) for v in scal[:4]] + [hx(0), hx(T256 - 1)], 0))
         jobs.append(("ptbytes", "same", None, [hx(v) for v in scal[:4]], 0))
     else:
-        jobs.append(("mult", "same", None, [hx(scal[0]), hx(scal[2])], 0))
+        jobs.append(("mult", "same", None, [hx(scal[0]), hx(scal[2]), hx(0)], 0))
     return jobs
 
 
